@@ -195,6 +195,150 @@ func egProper(g *EG, col []int) bool {
 	return true
 }
 
+// colouring witnesses on graphs with hundreds of vertices whose chromatic number is known by construction:
+// vertices that stay uncoloured while 254..513 of their neighbours receive one colour (counters narrower than an
+// int wrap at 256), hubs, and wide bipartite parts.
+type c09WideCase struct {
+	Family string `json:"family"` // apex-book | biclique+pendant | wheel | double-star
+	T      int    `json:"t"`
+	Leaves int    `json:"leaves,omitempty"`
+	Rep    string `json:"rep"`
+	Rev    bool   `json:"reversed_labels,omitempty"`
+}
+
+func buildWide(wc c09WideCase) (*EG, int) {
+	g := &EG{}
+	chi := 2
+	t := wc.T
+	switch wc.Family {
+	case "apex-book":
+		// triangle x,h1,h2; x carries leaves; b_1..b_t joined to h1 and h2; w joined to every b_i
+		x, h1, h2 := 0, 1, 2
+		egAdd(g, x, h1)
+		egAdd(g, x, h2)
+		egAdd(g, h1, h2)
+		v := 3
+		for i := 0; i < wc.Leaves; i++ {
+			egAdd(g, x, v)
+			v++
+		}
+		w := v
+		v++
+		for i := 0; i < t; i++ {
+			egAdd(g, h1, v)
+			egAdd(g, h2, v)
+			egAdd(g, w, v)
+			v++
+		}
+		g.N = v
+		chi = 3
+	case "biclique+pendant":
+		// K(t,2) with a pendant vertex on one of the two
+		for i := 0; i < t; i++ {
+			egAdd(g, i, t)
+			egAdd(g, i, t+1)
+		}
+		egAdd(g, t, t+2)
+		g.N = t + 3
+	case "wheel":
+		for i := 0; i < t; i++ {
+			egAdd(g, i, (i+1)%t)
+			egAdd(g, i, t)
+		}
+		g.N = t + 1
+		chi = 3 + t%2
+	case "double-star":
+		egAdd(g, 0, 1)
+		for i := 0; i < t; i++ {
+			egAdd(g, 0, 2+i)
+			egAdd(g, 1, 2+t+i)
+		}
+		g.N = 2 + 2*t
+	}
+	g.norm()
+	if wc.Rev {
+		p := make([]int, g.N)
+		for i := range p {
+			p[i] = g.N - 1 - i
+		}
+		g = egRelabel(g, p)
+	}
+	return g, chi
+}
+
+func evalC09Wide(wc c09WideCase) *Failure {
+	g, wantChi := buildWide(wc)
+	mk := func(fn, cl, what string) *Failure {
+		return &Failure{Class: "invariants/" + fn + "/" + cl + "/wide", What: fmt.Sprintf("%s on %s %s(t=%d, leaves=%d, reversed=%v) n=%d: %s", fn, wc.Rep, wc.Family, wc.T, wc.Leaves, wc.Rev, g.N, what), Kind: "c09-wide", Replay: wc}
+	}
+	lg := libGraphFromEG(g, wc.Rep)
+	var f *Failure
+	msg, p := try(func() {
+		chi, col := graph.ChromaticNumber(lg)
+		if chi != wantChi {
+			f = mk("ChromaticNumber", "wrong-value", fmt.Sprintf("%d want %d", chi, wantChi))
+			return
+		}
+		if !usesExactly(col, chi) || !egProper(g, col) {
+			f = mk("ChromaticNumber", "witness-not-a-proper-colouring", fmt.Sprintf("%d colours, witness is not a proper colouring with exactly that many colours", chi))
+			return
+		}
+		for k := wantChi - 1; k <= wantChi+1; k++ {
+			ok, col := graph.IsKColorable(lg, k)
+			if ok != (k >= wantChi) {
+				f = mk("IsKColorable", "wrong-value", fmt.Sprintf("k=%d: %v", k, ok))
+				return
+			}
+			if ok && (len(col) != g.N || !egProper(g, col) || maxOf(col) >= k) {
+				f = mk("IsKColorable", "witness-not-a-proper-colouring", fmt.Sprintf("k=%d", k))
+				return
+			}
+		}
+	})
+	if p {
+		return mk("any", "panic", msg)
+	}
+	return f
+}
+
+func maxOf(a []int) int {
+	m := -1
+	for _, x := range a {
+		if x > m {
+			m = x
+		}
+	}
+	return m
+}
+
+func c09Wide(c *Ctx) {
+	var cases []c09WideCase
+	ts := []int{254, 255, 256, 257, 258}
+	if c.Thorough() {
+		ts = append(ts, 300, 510, 511, 512, 513)
+	}
+	for _, t := range ts {
+		for _, rep := range []string{"dense", "sparse"} {
+			for _, rev := range []bool{false, true} {
+				for _, lv := range []int{0, 3, t + 1} {
+					cases = append(cases, c09WideCase{Family: "apex-book", T: t, Leaves: lv, Rep: rep, Rev: rev})
+				}
+				cases = append(cases, c09WideCase{Family: "biclique+pendant", T: t, Rep: rep, Rev: rev})
+				cases = append(cases, c09WideCase{Family: "wheel", T: t, Rep: rep, Rev: rev})
+				cases = append(cases, c09WideCase{Family: "double-star", T: t, Rep: rep, Rev: rev})
+			}
+		}
+	}
+	c.parFor(int64(len(cases)), 1, func(lo, hi int64) {
+		for _, wc := range cases[lo:hi] {
+			wc := wc
+			c.Check(func() *Failure { return evalC09Wide(wc) })
+			c.Nontrivial(1)
+		}
+	})
+	c.SetCount("wide_colouring_cases", int64(len(cases)))
+}
+
 func c09Large(c *Ctx) {
 	specs := [][]compSpec{
 		{{"star", 13}}, {{"star", 14}}, {{"star", 17}}, {{"path", 13}}, {{"path", 16}}, {{"cycle", 13}}, {{"cycle", 14}}, {{"cycle", 16}},
